@@ -6,9 +6,9 @@ resolves to zero or several candidates raises AnchorMissing (the check fails clo
 from facts import walk, callee_of, call_args, AnchorMissing
 import hirq
 
-T_CTRLS = 'alloc::vec::Vec<controls_impl::Control>'
+T_CTRLS = 'alloc::vec::Vec<ldap3::controls_impl::Control>'
 T_RESULT_PAYLOAD = '(lber::structures::Tag, %s)' % T_CTRLS
-T_ITEM_PAYLOAD = '(search::SearchItem, %s)' % T_CTRLS
+T_ITEM_PAYLOAD = '(ldap3::search::SearchItem, %s)' % T_CTRLS
 T_RESULT_SENDER = 'tokio::sync::oneshot::Sender<%s>' % T_RESULT_PAYLOAD
 T_ITEM_SENDER = 'tokio::sync::mpsc::unbounded::UnboundedSender<%s>' % T_ITEM_PAYLOAD
 T_ITEM_RECEIVER = 'tokio::sync::mpsc::unbounded::UnboundedReceiver<%s>' % T_ITEM_PAYLOAD
@@ -18,7 +18,7 @@ T_IDSET = 'std::collections::hash::set::HashSet<i32>'
 T_IDPAIR = '(i32, %s)' % T_IDSET
 T_IDTABLE = 'alloc::sync::Arc<std::sync::poison::mutex::Mutex<%s>>' % T_IDPAIR
 T_IDGUARD_PREFIX = 'std::sync::poison::mutex::MutexGuard<'
-T_REQ_TUPLE = '(i32, protocol::LdapOp, lber::structures::Tag, core::option::Option<alloc::vec::Vec<controls_impl::RawControl>>, %s)' % T_RESULT_SENDER
+T_REQ_TUPLE = '(i32, ldap3::protocol::LdapOp, lber::structures::Tag, core::option::Option<alloc::vec::Vec<ldap3::controls_impl::RawControl>>, %s)' % T_RESULT_SENDER
 T_REQ_SENDER = 'tokio::sync::mpsc::unbounded::UnboundedSender<%s>' % T_REQ_TUPLE
 T_REQ_RECEIVER = 'tokio::sync::mpsc::unbounded::UnboundedReceiver<%s>' % T_REQ_TUPLE
 T_SCRUB_SENDER = 'tokio::sync::mpsc::unbounded::UnboundedSender<i32>'
@@ -80,7 +80,7 @@ class Conn:
                 self.arms['scrub'] = a
             elif t == T_OPT % ('core::result::Result<%s, std::io::error::Error>' % T_DECODED):
                 self.arms['response'] = a
-            elif t == T_OPT % 'protocol::MiscSender':
+            elif t == T_OPT % 'ldap3::protocol::MiscSender':
                 self.arms['misc'] = a
             else:
                 self.arms.setdefault('other', []).append(a)
